@@ -151,6 +151,16 @@ impl<'tcx> Cx<'tcx> {
         }
       }
     }
+    // A call through the Fn* traits on a closure value: name the closure body directly (for `Fn`/`FnMut` closures
+    // called by `call_once` the resolved instance is a shim whose def id is the trait method itself).
+    if gargs.len() > 0 {
+      if let Some(t) = gargs.get(0).and_then(|a| a.as_type()) {
+        let t = match t.kind() { ty::Ref(_, inner, _) => *inner, _ => t };
+        if let ty::Closure(cdid, _) = t.kind() {
+          let _ = write!(s, ",\"self_closure\":{}", esc(&self.id(*cdid)));
+        }
+      }
+    }
     // Resolve trait method calls to the concrete impl where the types allow it.
     if owner.is_local() {
       let env = ty::TypingEnv::post_analysis(tcx, owner);
